@@ -279,6 +279,11 @@ def run(repo: Repo, chk: Check) -> None:
             if head_a != '$head' or last_a != prev_level or pv != prev_val:
                 bad.append(f'step {i}: searches ({last_a}, {head_a}] from value {pv}, expected ({prev_level}, $head] from {prev_val}')
             prev_level, prev_val = f'$L{i + 1}', f'$V{i + 1}'
+        # values are compared with the caller's `equals` only (the three comparing places agree): a built-in == / != on sampled values decides
+        # differently from the caller for every coarser or finer notion of equality
+        direct = [vrepr(c) for c, _ in p.conds if isinstance(c, App) and c.op in ('==', '!=', 'is', 'is not') and any(t in vrepr(c) for t in ('$hv', '$lv', '$V'))]
+        if direct:
+            bad.append(f'compares sampled values directly ({direct[0]}) instead of through equals()')
         if [vrepr(y) for y in ys] != [f'($L{i + 1}, $V{i + 1})' for i in range(len(calls))] and not p.truncated:
             bad.append(f'yields {[vrepr(y) for y in ys]} for {len(calls)} changes found')
     chk.ob('R-PATH', fw.qualname, not bad and len(res) >= 2, 'changes are chained from the interval tail upwards', fw.loc, {'paths': len(res), 'problems': sorted(set(bad))[:3]},
